@@ -160,6 +160,12 @@ func (s *ItemSpec) Make() Made {
 			f = *s.Pre
 		}
 		m.Item, m.Mutate = makeTyped(s.Code, f, s.Ptr)
+	case "negzero":
+		m.Item = math.Copysign(0, -1)
+	case "negzero32":
+		m.Item = float32(math.Copysign(0, -1))
+	case "float32":
+		m.Item = float32(s.Flt)
 	case "nan":
 		m.Item = math.NaN()
 	case "inf":
@@ -343,6 +349,9 @@ func (r *R) AnyItem(fam Fam, maxAtoms, depth int) ItemSpec {
 	case 3:
 		if r.Chance(1, 4) {
 			return ItemSpec{K: Pick(r, []string{"nan", "inf"})} // formattable, but encoding/json refuses them
+		}
+		if r.Chance(1, 3) {
+			return ItemSpec{K: Pick(r, []string{"negzero", "negzero32", "float32"}), Flt: Pick(r, []float64{0, 1.5, -2.25})}
 		}
 		return ItemSpec{K: "float", Flt: Pick(r, []float64{0, 1.5, -2.25, 1e21, 1e-7, 3})}
 	case 4:
